@@ -240,11 +240,13 @@ class Ctx:
         for what, n in sorted(self.known.items()):
             print('KNOWN-FINDING: property=%s %s (%d occurrence%s in this run)' % (self.prop, what, n, '' if n == 1 else 's'))
         shown = {}
+        extra_check = self.prop.startswith('X')      # supplementary comparison beyond the 20 properties: observations, never a verdict on a property
         for v in self.violations:
             k = (v['api'], v['symptom'])
             shown[k] = shown.get(k, 0) + 1
             if shown[k] > 3 or len(shown) > 60: continue          # a few replay files per (entry point, symptom) are enough
-            print('VIOLATION property=%s replay=%s   # %s %s %s' % (self.prop, v['replay'], v['api'], v['symptom'], json.dumps(v['attrs'], sort_keys=True, default=str)[:200]))
+            if extra_check: print('OBSERVATION extra=%s replay=%s   # %s %s %s' % (self.prop, v['replay'], v['api'], v['symptom'], json.dumps(v['attrs'], sort_keys=True, default=str)[:200]))
+            else: print('VIOLATION property=%s replay=%s   # %s %s %s' % (self.prop, v['replay'], v['api'], v['symptom'], json.dumps(v['attrs'], sort_keys=True, default=str)[:200]))
         cov = dict(states=max(self.states, 1) if self.states else 0, transitions=self.transitions,
                    traces_validated_against_impl=self.traces,
                    samples=self.samples or ['(no sample recorded)'],
@@ -259,13 +261,14 @@ class Ctx:
         ev = dict(property_id=self.prop, tier=self.tier, seed=self.seed, level=level, coverage=cov,
                   assumptions=self.assumptions, wall_s=round(wall, 2), violations=len(self.violations))
         evdir = os.path.join(VERIF, 'evidence') if not self.alt else os.path.dirname(self.out)
+        if extra_check and not self.alt: evdir = os.path.join(VERIF, 'out', 'extras')
         os.makedirs(evdir, exist_ok=True)
         with open(os.path.join(evdir, self.prop + '.json'), 'w') as f:
             json.dump(ev, f, indent=1, default=str)
         shutil.rmtree(self.work, ignore_errors=True)
         print('%s %s: %d evaluations, %d traces validated, %d TLC states, %d known-finding hits, %d violations, %.1fs'
               % (self.prop, self.tier, self.evaluations, self.traces, self.states, sum(self.known.values()), len(self.violations), wall))
-        return 1 if self.violations else 0
+        return 1 if (self.violations and not extra_check) else 0
 
 def main(prop, body):
     """Entry point used by bin/check: body(ctx) does the work and returns ctx.finish(...)."""
